@@ -129,9 +129,13 @@ def loadLevels : List Chain → List Chain.Saved → List Chain
   | l :: ls, s :: ss => l.load s :: loadLevels ls ss
   | ls, _ => ls
 
-/-- `set_state`. -/
+/-- `set_state`: every level present in the saved state is loaded, and the ladder entry of
+    that level is set to the level's (restored) beta. -/
 def load (c : PTChain) (s : List Chain.Saved) : PTChain :=
-  { c with levels := loadLevels c.levels s }
+  let ls := loadLevels c.levels s
+  { c with levels := ls
+           betas := (c.betas.zip (List.range c.betas.length)).map fun (b, t) =>
+                      if t < s.length then (ls.getD t default).beta else b }
 
 end PTChain
 end Epsie
